@@ -99,4 +99,12 @@ def replay(doc):
     if not f.items[PROP]:
         print('no violation for this case')
         return 0
-    return 1
+    return _verdict(doc, [sig for sig, det in f.items[PROP]])
+
+
+def _verdict(doc, sigs):
+    """1 iff the violation of the replay file shows again (another
+    signature of the same case, e.g. a recorded known finding, is printed
+    but is not this violation)."""
+    want = doc.get('signature')
+    return 1 if (want is None and sigs) or want in sigs else 0
